@@ -334,6 +334,10 @@ class GateController(threading.Thread):
                 if self.gate.get('after_cancel_begin') and not self.d.cancel_began:
                     time.sleep(0.0005)
                     continue
+                if self.gate.get('hold_while_paused') and watchdog.PAUSED[0]:
+                    # a window action is orchestrating the order itself: nothing is let go behind its back
+                    time.sleep(0.0005)
+                    continue
                 if watchdog.quiescent(director=self.d):
                     parked = self.d.parked_keys()
                     if not parked:
